@@ -126,6 +126,14 @@ def class_source(case, base):
     return "\n".join(out) + "\n", f"L{spec_levels-1}"
 
 
+class StateError(Exception):
+    """raised by a scripted state"""
+
+
+class ModelAbort(Exception):
+    """the scripted state raised: nothing else happens in this iteration"""
+
+
 class Rec:
     """recording mix-in placed in front of StateMachine"""
 
@@ -144,6 +152,8 @@ class Rec:
             self.next_state_now(ref)
         elif act[0] == "done":
             self.done()
+        elif act[0] == "raise":
+            raise StateError(name)
         elif act[0] == "nsn2":
             self.next_state_now(ref)
             self.next_state_now(getattr(type(self), act[2]) if self._refs_as_objects else act[2])
@@ -185,6 +195,15 @@ def build_machine(case, base_name):
         if len(_class_cache) > 64:
             _class_cache.clear()
         _class_cache[key] = cls
+    if case.get("bases_first"):
+        # the classes below the machine class are instantiated first (a robot may use a base machine and a
+        # specialised one side by side); that must not influence the specialised machine
+        for base_cls in cls.__mro__[1:]:
+            if base_cls.__name__.startswith("L"):
+                try:
+                    base_cls()
+                except Exception:  # noqa - a base without a first state simply cannot be instantiated
+                    pass
     m = cls()
     m._trace = []
     m._refs_as_objects = bool(case.get("objrefs"))
@@ -442,6 +461,9 @@ class SpecSM:
                 self.bump("act:next_state_now")
                 self._enter(act[1])
                 self.execute(now, now_d, ev, depth + 1)
+            elif act and act[0] == "raise":
+                self.bump("act:raise")
+                raise ModelAbort()
             elif act and act[0] == "nsn2":
                 # two next_state_now() calls in one body: the engage request was used up by the first nested
                 # iteration, so the second one runs as an iteration without a request
@@ -639,9 +661,17 @@ class Driver:
         if case.get("t0"):
             simenv.advance(case["t0"])
         base = "AutonomousStateMachine" if spec.auto else "StateMachine"
+        pre_dur = {}
         try:
             m = build_machine(case, base)
             twin = build_machine(case, "StateMachine") if spec.auto and lab.use_twin else None
+            for n_, us_ in (case.get("pre_dur") or {}).items():
+                if spec.timed(n_):
+                    # a value the dashboard (or a persistent file) holds before the component exists is kept
+                    pub_ = simenv.nt().getDoubleTopic(f"/components/{self.cname}/state/{n_}_duration").publish()
+                    pub_.set(us_ * 1e-6)
+                    self.handles.append(pub_)
+                    pre_dur[n_] = us_
             setup_tunables(m, self.cname, "components")
             if twin is not None:
                 setup_tunables(twin, self.cname + "_twin", "components")
@@ -657,9 +687,12 @@ class Driver:
             durs[n] = spec.eff[n]["dur"] if spec.timed(n) else None
         # what the duration tunables hold right after setup (property: the decorator argument of the effective state)
         for n in spec.names:
+            if n in pre_dur:
+                durs[n] = pre_dur[n]
+        for n in spec.names:
             if spec.timed(n):
                 got = getattr(m, n + "_duration", None)
-                want = spec.eff[n]["dur"] * 1e-6
+                want = durs[n] * 1e-6
                 if got is None or abs(got - want) > 1e-12:
                     k = spec.override_kind(n) or "plain"
                     if lab.flag(f"{lab.pid}/duration-default@{k}", f"{n}_duration is {got!r} after setup, decorator says {want!r}") :
@@ -834,15 +867,23 @@ class Driver:
                         m.on_iteration(now_d)
                     else:
                         m.execute()
+                except StateError:
+                    pass  # the caller (AutonomousModeSelector with the FMS attached) swallows it and keeps iterating
                 except Exception as e:
                     raise self.fail_exc(e, f"execute() in iteration {idx} (history so far: {hist[:idx+1]})")
                 ev = Events(list(m._trace))
                 row["calls"] = [e for e in m._trace]
                 try:
-                    if spec.auto:
-                        self.ctx = model.on_iteration(now, now_d, ev)
-                    else:
-                        self.ctx = model.execute(now, now_d, ev)
+                    try:
+                        if spec.auto:
+                            self.ctx = model.on_iteration(now, now_d, ev)
+                        else:
+                            self.ctx = model.execute(now, now_d, ev)
+                    except ModelAbort:
+                        # the state raised: the iteration ends there; an autonomous machine stays armed and
+                        # carries on at its next iteration (nothing called done(), nothing expired)
+                        self.ctx = {}
+                        model.latch = True
                     # anything the implementation did beyond the model's expectation
                     extra = [e for e in ev.rest() if e[0] == "call"]
                     if extra:
@@ -864,12 +905,15 @@ class Driver:
                 # twin differential (C13)
                 if twin is not None and tw_running and spec.auto:
                     del twin._trace[:]
+                    tw_ok = True
                     try:
                         twin.engage()
                         twin.execute()
+                    except StateError:
+                        pass  # a scripted state raised; what was recorded up to there is still compared
                     except Exception as e:
-                        tw_running = False
-                    else:
+                        tw_running = tw_ok = False
+                    if tw_ok:
                         a = self.until_done(row["calls"])
                         b = self.until_done(list(twin._trace))
                         if a != b and not model.tainted_reenable:
@@ -1102,6 +1146,12 @@ def decode_sm_case(code, profile):
                 pre.append(["engage", None, True])
             elif eng_v < 19:
                 pre.append(["engage", t, True])
+            elif tgt == 0:
+                pre.append(["engage", t, False])
+                pre.append(["engage"])  # "the next engage()" after a stop decides where the run starts; later ones do not
+            elif tgt == 1:
+                pre.append(["engage"])
+                pre.append(["engage", names[(tgt + 1) % len(names)], False])
             else:
                 pre.append(["engage"])
                 pre.append(["engage", t if tgt > 2 else None, True])
@@ -1131,6 +1181,10 @@ def decode_sm_case(code, profile):
         case["objrefs"] = True
     if t0_c in (1, 3):
         case["verbose"] = True  # the logging branches of execute()/done() run as well
+    if cname_c == 2:
+        case["bases_first"] = True
+    if cname_c == 1 and timed and not case.get("auto"):
+        case["pre_dur"] = {timed[t0_c % len(timed)]: [30_000, 70_001, 1, 250_000, 20_000, 500][t0_c]}
     if t0_c in (4, 5) and "over" not in case:
         case["sibling"] = True  # a second instance of the same class is driven on the side
     return case
@@ -1160,6 +1214,10 @@ def decode_auto_case(code):
         for k, sd in enumerate(case["states"]):
             if sd["kind"] != "default":
                 sd["script"] = [([["dns", "dnsn"][(k + j) % 2], regular[(k + j) % len(regular)]] if a == ["done"] else a) for j, a in enumerate(sd["script"])]
+    if t0_c == 1:
+        for k, sd in enumerate(case["states"]):
+            if sd["kind"] != "default":
+                sd["script"] = [(["raise"] if a[0] == "none" and (j + k) % 2 == 0 else a) for j, a in enumerate(sd["script"])]
     if t0_c == 2:
         for k, sd in enumerate(case["states"]):
             if sd["kind"] != "default":
